@@ -169,9 +169,7 @@ def run_kani_units(pid, tier, scratch, report, only=None):
         return None
     xt_dir = ku.make_scratch(REPO, scratch)
     mods = {}
-    for h in hs:
-        for mn in [h['module']] + list(h.get('requires', [])):
-            mods[mn] = reg.KANI_MODULES[mn]
+    mods = reg.modules_closure([h['module'] for h in hs])
     try:
         hdir = ku.inject(xt_dir, scratch, list(mods.values()), reg.attr_inserts_for(mods.keys()))
     except ScanError as e:
@@ -402,8 +400,7 @@ def replay_file(path):
     try:
         xt_dir = ku.make_scratch(REPO, scratch)
         m = reg.KANI_MODULES[r['module']]
-        req = [x for h in reg.HARNESSES if reg.full_name(h) == r['harness'] for x in h.get('requires', [])]
-        hdir = ku.inject(xt_dir, scratch, [m] + [reg.KANI_MODULES[x] for x in req], reg.attr_inserts_for([r['module']]))
+        hdir = ku.inject(xt_dir, scratch, list(reg.modules_closure([r['module']]).values()), reg.attr_inserts_for([r['module']]))
         with open(os.path.join(hdir, m['file']), 'a') as f:
             f.write('\n' + r['playback_test'] + '\n')
         try:
